@@ -360,6 +360,42 @@ static void evaluate(int kind, int r, const char *where)
   }
 }
 
+/* Can the default schedule of this configuration be compared with a free run? In the default schedule finite waits expire and the child only
+ * moves during an infinite wait; the autonomous helper makes its first move after vk_autonomous_gap_ms, later than all finite waits together. What
+ * a free run cannot reproduce is a zero-timeout look at a child that a signal has just been sent to: how fast a signal kills is up to the kernel. */
+static int free_run_comparable(void)
+{
+  if (C.faults || C.prefail) return 0;
+  if (C.is != IS_RUNNING) return !(C.deadline && !C.expired && C.cb == CB_EXITS); /* the free run waits for the child's own exit: the deadline passes */
+  struct slot s[3];
+  int64_t tau[4];
+  int m = plan(s, tau);
+  int handled = 0;
+  for (int k = 0; k < m; k++) {
+    int dying = 0;
+    if (s[k].act == A_BAD) return 1;
+    if (s[k].act == A_KILL) dying = 1;
+    if (s[k].act == A_TERM) {
+      if (C.cb == CB_EXITS || C.cb == CB_DIES_ON_TERM) dying = 1;
+      if (C.cb == CB_HANDLER) {
+        if (handled) dying = 1; /* the handler is one-shot in the helper's script: unknown here, stay away */
+        handled = 1;
+      }
+    }
+    if (dying) return s[k].tmo > 0;
+    if (s[k].tmo >= INF_T) return 1;
+  }
+  return 1;
+}
+
+static void obs_signals(void)
+{
+  char b[64] = "";
+  for (int i = 0; i < CH->nsigs; i++)
+    if (CH->sigs[i].api == stop_api) snprintf(b + strlen(b), sizeof b - strlen(b), "%d,", CH->sigs[i].sig);
+  vk_obs("signals=%s", b);
+}
+
 static void stop_hang(const char *where)
 {
   vk_obs("hang(%s)", where);
@@ -375,6 +411,7 @@ static void run_cfg(const char *prop_unused)
   vk_cfg.sched_bound = hx_tier || !C.deadline ? 2 : 1; /* quick: two scheduling deviations without a deadline, one with */
   vk_cfg.vlimit = 24;
   vk_cfg.hello_lite = 1;
+  vk_autonomous_gap_ms = 600; /* 20 nominal ms at the free runs' time scale: later than the 5 + 3 x 2 ms the finite waits can add up to */
   if (C.faults) {
     vk_cfg.faults_on = 1;
     vk_cfg.fault_bound = 1;
@@ -413,6 +450,12 @@ static void run_cfg(const char *prop_unused)
   /* initial state */
   if (C.is != IS_RUNNING) {
     if (CH->pos < CH->nsteps && vk_child_enabled(CH)) vk_child_step(CH);
+    if (vk_cfg.passthru && C.cb == CB_EXITS) {
+      /* free run: the helper exits by itself after its gap */
+      siginfo_t si;
+      waitid(P_PID, (id_t) CH->pid, &si, WEXITED | WNOWAIT);
+      CH->state = CH_ZOMBIE;
+    }
     if (CH->state == CH_RUNNING) {
       kill(CH->pid, SIGKILL);
       siginfo_t si;
@@ -431,10 +474,12 @@ static void run_cfg(const char *prop_unused)
   if (C.expired) vk_advance(5);
   vk_faults_armed = 1;
   t0 = vk_now();
+  if (!vk_cfg.passthru) S->free_run_ok = free_run_comparable();
   if (C.via == VIA_STOP) {
     r = hx_stop(P, sa);
     stop_api = hx_last_api;
     vk_faults_armed = 0;
+    obs_signals();
     evaluate(R_VALUE, r, "");
     /* clean up outside the property: make the child end, destroy */
     vk_cfg.sched_on = 0;
@@ -452,6 +497,7 @@ static void run_cfg(const char *prop_unused)
     reproc_t *q = hx_destroy(P);
     stop_api = hx_last_api;
     vk_faults_armed = 0;
+    obs_signals();
     if (q != NULL) vk_violation("C15", "destroy-returns-null", key, "destroy returned a non-null pointer");
     evaluate(R_DESTROY, 0, "");
     /* destroy releases everything, whatever happened to the child */
@@ -531,5 +577,5 @@ static void c15_run(int tier, long cfg)
   if (S->nviol == nv) vk_hit(CL_NONRUNNING_DESTROY);
 }
 
-const struct hx_harness h_c07 = { "C07", "h_c07", stop_n, c07_run, stop_clauses, NULL };
-const struct hx_harness h_c15 = { "C15", "h_c15", c15_n, c15_run, stop_clauses, NULL };
+const struct hx_harness h_c07 = { "C07", "h_c07", stop_n, c07_run, stop_clauses, NULL, 0, { 0, 0 }, 0, 41 };
+const struct hx_harness h_c15 = { "C15", "h_c15", c15_n, c15_run, stop_clauses, NULL, 0, { 0, 0 }, 0, 41 };
